@@ -571,17 +571,24 @@ def unit_export_options(ctx):
     own = ctx.choose("field-unit", ["A/m", None])
     opt = ctx.choose("options", [{"unit": "T"}, {"name": "m", "unit": "J/m3"}, {"name": "m"}, {"unit": ""}])
     later = ctx.choose("then", ["plain-export", "export-with-other-unit-then-plain"])
+    # "importing that DataArray returns an equal field with the same labels and dtype": also for narrow floating types
+    dtype = ctx.choose("dtype", ["float64", "float32", "float16", "complex64"])
     fam = FAM_Q[0]
-    f = _field(n, fam, nvdim, "default", "float64", ctx.seed, unit=own)
-    fresh = _field(n, fam, nvdim, "default", "float64", ctx.seed, unit=own)
+    f = _field(n, fam, nvdim, "default", dtype, ctx.seed, unit=own)
+    fresh = _field(n, fam, nvdim, "default", dtype, ctx.seed, unit=own)
     before = C.field_snap(f)
     inst = ctx.key()
     ctx.step(1, f"to_xarray({opt})")
     xa = f.to_xarray(**opt)
     ctx.check(2)
-    # (what the options do to THIS DataArray is documented in the docstring, not in the statement: recorded only)
+    # the unit the caller asks this DataArray to carry is the unit it carries ("attributes carry ... unit"); an EMPTY
+    # string falls back to the field's own unit in the library, which the statement does not decide: recorded only
     if "unit" in opt and xa.attrs.get("units") != opt["unit"]:
-        ctx.note("unit-option-not-carried:" + repr(opt["unit"]))
+        if opt["unit"]:
+            ctx.fail("Field.to_xarray/unit-option-not-carried", f"units attribute {xa.attrs.get('units')!r}, requested {opt['unit']!r} "
+                     f"(the field's own unit is {own!r})", instance=inst)
+        else:
+            ctx.note("unit-option-not-carried:" + repr(opt["unit"]))
     if "name" in opt and xa.name != opt["name"]:
         ctx.note("name-option-not-carried")
     if C.field_snap(f) != before or f.unit != own:
@@ -606,6 +613,8 @@ def unit_export_options(ctx):
         return
     if not (np.array_equal(r.array, f.array) and r.mesh == f.mesh and r.vdims == f.vdims):
         ctx.fail("Field.from_xarray/export-with-options-imports-to-another-field", "", instance=inst)
+    elif r.array.dtype != f.array.dtype:
+        ctx.fail("Field.from_xarray/dtype-not-kept", f"exported {f.array.dtype}, imported {r.array.dtype}", instance=inst)
 
 
 def units(tier):
